@@ -716,10 +716,25 @@ func (w *World) unrollLiteralRanges(overlay map[string][]byte) (map[string][]byt
 				return true
 			}
 			lit, ok := ast.Unparen(rs.X).(*ast.CompositeLit)
+			litTF, litSrc, litInfo := tf, src, info
+			if !ok {
+				// a package-level table that is only ever read: `var joinQualifiers = [...]struct{…}{ {LEFT, LEFT_JOIN}, … }`
+				if id, isId := ast.Unparen(rs.X).(*ast.Ident); isId {
+					if tl, tinfo := w.readOnlyTable(info.ObjectOf(id)); tl != nil {
+						lit, ok = tl, true
+						litInfo = tinfo
+						var tname string
+						litTF, tname = w.fileOf(tl.Pos())
+						litSrc = readSource(tname, overlay)
+					}
+				}
+			}
 			if !ok || len(lit.Elts) == 0 || len(lit.Elts) > 16 {
 				return true
 			}
-			if _, isSlice := info.TypeOf(lit).Underlying().(*types.Slice); !isSlice {
+			switch litInfo.TypeOf(lit).Underlying().(type) {
+			case *types.Slice, *types.Array:
+			default:
 				return true
 			}
 			if k, ok := rs.Key.(*ast.Ident); !ok || k.Name != "_" {
@@ -734,8 +749,25 @@ func (w *World) unrollLiteralRanges(overlay map[string][]byte) (map[string][]byt
 					return true
 				}
 			}
+			// a search loop `for _, v := range T { if C(v) { …; break } }` is the chain if C(v1) {…} else if C(v2) {…} …
+			searchIf := (*ast.IfStmt)(nil)
 			if containsBranch(rs.Body) {
-				return true
+				if len(rs.Body.List) != 1 {
+					return true
+				}
+				ifs, ok := rs.Body.List[0].(*ast.IfStmt)
+				if !ok || ifs.Else != nil || ifs.Init != nil || len(ifs.Body.List) == 0 {
+					return true
+				}
+				br, ok := ifs.Body.List[len(ifs.Body.List)-1].(*ast.BranchStmt)
+				if !ok || br.Tok != token.BREAK || br.Label != nil {
+					return true
+				}
+				inner := &ast.BlockStmt{List: ifs.Body.List[:len(ifs.Body.List)-1]}
+				if containsBranch(inner) {
+					return true
+				}
+				searchIf = ifs
 			}
 			// the loop variable is only read
 			vobj := info.Defs[vid]
@@ -762,13 +794,114 @@ func (w *World) unrollLiteralRanges(overlay map[string][]byte) (map[string][]byt
 			if written {
 				return true
 			}
+			// elements that are struct literals are taken apart: every use of the loop variable must be v.field
+			fieldText := func(e ast.Expr, field string) (string, bool) {
+				cl, ok := ast.Unparen(e).(*ast.CompositeLit)
+				if !ok {
+					return "", false
+				}
+				st, ok := litInfo.TypeOf(cl).Underlying().(*types.Struct)
+				if !ok {
+					return "", false
+				}
+				for i, el := range cl.Elts {
+					if kv, ok := el.(*ast.KeyValueExpr); ok {
+						if k, ok := kv.Key.(*ast.Ident); ok && k.Name == field {
+							return "(" + string(litSrc[litTF.Offset(kv.Value.Pos()):litTF.Offset(kv.Value.End())]) + ")", true
+						}
+						continue
+					}
+					if i < st.NumFields() && st.Field(i).Name() == field {
+						return "(" + string(litSrc[litTF.Offset(el.Pos()):litTF.Offset(el.End())]) + ")", true
+					}
+				}
+				return "", false
+			}
+			structElems := false
+			if len(lit.Elts) > 0 {
+				if cl, ok := ast.Unparen(lit.Elts[0]).(*ast.CompositeLit); ok {
+					if _, isSt := litInfo.TypeOf(cl).Underlying().(*types.Struct); isSt {
+						structElems = true
+					}
+				}
+			}
+			var selUses []*ast.SelectorExpr
+			if structElems {
+				whole := false
+				inSel := map[*ast.Ident]bool{}
+				ast.Inspect(rs.Body, func(y ast.Node) bool {
+					if sel, ok := y.(*ast.SelectorExpr); ok {
+						if id, ok := ast.Unparen(sel.X).(*ast.Ident); ok && info.ObjectOf(id) == vobj {
+							selUses = append(selUses, sel)
+							inSel[id] = true
+						}
+					}
+					return true
+				})
+				ast.Inspect(rs.Body, func(y ast.Node) bool {
+					if id, ok := y.(*ast.Ident); ok && info.ObjectOf(id) == vobj && !inSel[id] {
+						whole = true
+					}
+					return true
+				})
+				if whole {
+					return true
+				}
+			} else if litTF != tf {
+				// elements of a table declared elsewhere are substituted as text: only self-contained expressions
+				for _, e := range lit.Elts {
+					if !simpleArg(e) {
+						return true
+					}
+				}
+			}
+			renderFor := func(n ast.Node, e ast.Expr) (string, bool) {
+				if !structElems {
+					et := "(" + string(litSrc[litTF.Offset(e.Pos()):litTF.Offset(e.End())]) + ")"
+					return render(src, tf, info, n, map[types.Object]string{vobj: et}, nil), true
+				}
+				skip := map[ast.Node]string{}
+				for _, sel := range selUses {
+					t, ok := fieldText(e, sel.Sel.Name)
+					if !ok {
+						return "", false
+					}
+					skip[sel] = t
+				}
+				return render(src, tf, info, n, nil, skip), true
+			}
 			var b strings.Builder
 			b.WriteString("// range over a literal unrolled for analysis\n")
-			for _, e := range lit.Elts {
-				et := "(" + string(src[tf.Offset(e.Pos()):tf.Offset(e.End())]) + ")"
-				b.WriteString(render(src, tf, info, rs.Body, map[types.Object]string{vobj: et}, nil))
+			failed := false
+			for i, e := range lit.Elts {
+				if searchIf != nil {
+					cond, ok1 := renderFor(searchIf.Cond, e)
+					body, ok2 := renderFor(&ast.BlockStmt{Lbrace: searchIf.Body.Lbrace, List: searchIf.Body.List[:len(searchIf.Body.List)-1], Rbrace: searchIf.Body.List[len(searchIf.Body.List)-1].Pos() - 1}, e)
+					if !ok1 || !ok2 {
+						failed = true
+						break
+					}
+					if i > 0 {
+						b.WriteString(" else ")
+					}
+					b.WriteString("if " + cond + " " + strings.TrimRight(body, " \t\n"))
+					if !strings.HasSuffix(strings.TrimRight(body, " \t\n"), "}") {
+						b.WriteString("}")
+					}
+					continue
+				}
+				t, ok := renderFor(rs.Body, e)
+				if !ok {
+					failed = true
+					break
+				}
+				b.WriteString(t)
 				b.WriteString("\n")
 			}
+			if failed {
+				return true
+			}
+			b.WriteString("\n")
 			edits[fname] = append(edits[fname], textEdit{tf.Offset(rs.Pos()), tf.Offset(rs.End()), b.String()})
 			done = append(done, f.Name)
 			found = true
@@ -1033,4 +1166,80 @@ func helperBinding(name string) bool {
 		}
 	}
 	return true
+}
+
+
+// readOnlyTable: obj is a package-level variable of the repository that is initialised with a composite literal
+// and never assigned, address-taken or indexed on the left of an assignment in non-test code.
+func (w *World) readOnlyTable(obj types.Object) (*ast.CompositeLit, *types.Info) {
+	v, ok := obj.(*types.Var)
+	if !ok || v.Pkg() == nil || v.Parent() != v.Pkg().Scope() || pkgKey(v.Pkg().Path()) == "" {
+		return nil, nil
+	}
+	var lit *ast.CompositeLit
+	var linfo *types.Info
+	for _, p := range w.Pkgs {
+		if p.Types != v.Pkg() {
+			continue
+		}
+		for _, file := range p.Syntax {
+			for _, d := range file.Decls {
+				gd, ok := d.(*ast.GenDecl)
+				if !ok {
+					continue
+				}
+				for _, sp := range gd.Specs {
+					vs, ok := sp.(*ast.ValueSpec)
+					if !ok {
+						continue
+					}
+					for i, nm := range vs.Names {
+						if p.TypesInfo.Defs[nm] == obj && i < len(vs.Values) {
+							lit, _ = ast.Unparen(vs.Values[i]).(*ast.CompositeLit)
+							linfo = p.TypesInfo
+						}
+					}
+				}
+			}
+		}
+	}
+	if lit == nil {
+		return nil, nil
+	}
+	written := false
+	for _, f := range w.Funcs {
+		ast.Inspect(f.Decl.Body, func(x ast.Node) bool {
+			switch y := x.(type) {
+			case *ast.AssignStmt:
+				for _, l := range y.Lhs {
+					root := l
+					for {
+						switch z := ast.Unparen(root).(type) {
+						case *ast.IndexExpr:
+							root = z.X
+							continue
+						case *ast.SelectorExpr:
+							root = z.X
+							continue
+						}
+						break
+					}
+					if id, ok := ast.Unparen(root).(*ast.Ident); ok && f.ObjOf(id) == obj {
+						written = true
+					}
+				}
+			case *ast.UnaryExpr:
+				if y.Op == token.AND {
+					if id, ok := ast.Unparen(y.X).(*ast.Ident); ok && f.ObjOf(id) == obj {
+						written = true
+					}
+				}
+			}
+			return true
+		})
+	}
+	if written {
+		return nil, nil
+	}
+	return lit, linfo
 }
